@@ -705,7 +705,9 @@ func Main(run *hx.Run, model *hx.Model, prop string, corruption int, report func
 		return
 	}
 	for name, script := range run.CorpusScripts() {
-		handle("corpus/"+name, script)
+		if strings.HasPrefix(script[0], "#cfg ") {
+			handle("corpus/"+name, script)
+		}
 	}
 	n := run.Scale(1500, 30000)
 	for i := 0; i < n && run.Findings() < 10; i++ {
